@@ -186,45 +186,91 @@ def _cat_equal(a, b):
         all(nf.equal(x, y) for x, y in zip(a.parts, b.parts))
 
 
+class ScalarTensorHooks(Hooks):
+    """Exact scalar semantics of the element-wise tensor idioms a guarded division is written with (one entry of the
+    tensors at a time): abs, sign (sign(0) = 0), copysign, detach, where, full_like / ones_like / zeros_like, clamp."""
+
+    def tensor_method(self, interp, recv, name, args, kwargs, node, fi):
+        x = recv if isinstance(recv, Fraction) else (recv.const_value() if isinstance(recv, Rat) else None)
+        if x is None:
+            return NotImplemented
+        if name in ("detach", "clone", "contiguous", "float", "double"):
+            return x
+        if name == "abs":
+            return abs(x)
+        if name in ("sign", "sgn"):
+            return Fraction((x > 0) - (x < 0))
+        if name == "copysign":
+            o = args[0]
+            o = o if isinstance(o, Fraction) else Fraction(o)
+            return abs(x) if o >= 0 else -abs(x)
+        if name in ("clamp_min", "clamp") and (args or "min" in kwargs) and name == "clamp_min":
+            return max(x, Fraction(args[0]))
+        if name == "clamp":
+            lo, hi = kwargs.get("min", args[0] if args else None), kwargs.get("max", args[1] if len(args) > 1 else None)
+            if lo is not None:
+                x = max(x, Fraction(lo))
+            if hi is not None:
+                x = min(x, Fraction(hi))
+            return x
+        return NotImplemented
+
+    def external_call(self, interp, dotted, args, kwargs, node, fi):
+        if dotted == "torch.where" and len(args) == 3:
+            return args[1] if bool(args[0]) else args[2]
+        if dotted == "torch.full_like":
+            return Fraction(kwargs.get("fill_value", args[1] if len(args) > 1 else 0))
+        if dotted == "torch.ones_like":
+            return Fraction(1)
+        if dotted == "torch.zeros_like":
+            return Fraction(0)
+        if dotted in ("torch.abs", "torch.sign", "torch.copysign") and args:
+            return self.tensor_method(interp, Fraction(args[0]), dotted.split(".")[-1], args[1:], kwargs, node, fi)
+        return NotImplemented
+
+
 def r18_g(ctx):
+    """The guarded division of the diagonal-noise integrand, one entry at a time, on exact rationals: for |b| > eps the
+    result is a / b; for every other b -- including b exactly 0, which is what the guard is for -- the divisor has
+    modulus eps (so the quotient is finite) and the sign of b where b has one."""
     rep, model = ctx.rep, ctx.model
-    rep.rule("R18.5", "stable_division is a guarded a / b: the divisor is b where |b| > eps, +-eps otherwise")
+    rep.rule("R18.5", "stable_division entry by entry on exact rationals: a / b where |b| > eps; otherwise a divisor of modulus "
+                      "eps with the sign of b -- never zero, also for b = 0")
     sd = model.func(MISC, "stable_division")
     rep.analysed(sd)
-    rets = [n for n in own_nodes(sd.node) if isinstance(n, ast.Return)]
-    ok = len(rets) == 1 and ast.unparse(rets[0].value) == "a / b"
-    wh = [c for c in astq.calls(sd) if astq.call_name(c) == "torch.where"]
-    ok2 = False
-    if len(wh) == 1 and len(wh[0].args) == 3:
-        cond, x, y = wh[0].args
-        neg = False
-        while isinstance(cond, ast.UnaryOp) and isinstance(cond.op, ast.Not):
-            cond, neg = cond.operand, not neg
-        if isinstance(cond, ast.Compare) and len(cond.ops) == 1:
-            l, r, op = cond.left, cond.comparators[0], cond.ops[0]
-            # normalise to "big OP small" with OP in {>, >=}
-            if isinstance(op, (ast.Lt, ast.LtE)):
-                l, r = r, l
-                strict = isinstance(op, ast.Lt)
+    a_node = sd.node.args
+    params = [p.arg for p in a_node.args]
+    defaults = dict(zip(params[len(params) - len(a_node.defaults):], a_node.defaults))
+    eps_param = next((p for p in params[2:] if p in defaults and isinstance(defaults[p], ast.Constant)), None)
+    if eps_param is None:
+        raise AnalysisError("stable_division no longer has a constant default tolerance", where=astq.loc(sd))
+    eps = nf.frac(defaults[eps_param].value)
+    bad = []
+    n = 0
+    for b in (Fraction(3), Fraction(-3), eps * 2, -eps * 2, eps, -eps, eps / 2, -eps / 2, Fraction(0)):
+        for a in (Fraction(1), Fraction(0), Fraction(-2)):
+            n += 1
+            it = Interp(model, ScalarTensorHooks())
+            try:
+                r = it.call_function(sd, [a, b], {})
+            except AnalysisError as e:
+                if "zero" in str(e).lower():
+                    bad.append(f"a={a}, b={b}: division by zero")
+                    continue
+                raise
+            r = r if isinstance(r, Fraction) else (r.const_value() if isinstance(r, Rat) else None)
+            if r is None:
+                raise AnalysisError(f"stable_division({a}, {b}) did not evaluate to a number", where=astq.loc(sd))
+            if abs(b) > eps:
+                if r != a / b:
+                    bad.append(f"a={a}, b={b}: returns {r}, not a / b = {a / b}")
             else:
-                strict = isinstance(op, ast.Gt)
-            if isinstance(op, (ast.Lt, ast.LtE, ast.Gt, ast.GtE)):
-                abs_big, abs_small = "b.abs()" in ast.unparse(l), "b.abs()" in ast.unparse(r)
-                eps_big, eps_small = ast.unparse(l) == "epsilon", ast.unparse(r) == "epsilon"
-                # |b| > eps selects b ; eps >= |b| (the complement) selects the guard
-                if abs_big and eps_small:
-                    keep_b_when_true = True
-                elif eps_big and abs_small:
-                    keep_b_when_true = False
-                else:
-                    keep_b_when_true = None
-                if keep_b_when_true is not None:
-                    if neg:
-                        keep_b_when_true = not keep_b_when_true
-                    chosen, guard = (x, y) if keep_b_when_true else (y, x)
-                    ok2 = ast.unparse(chosen) == "b" and "sign" in ast.unparse(guard) and "epsilon" in ast.unparse(guard)
-    rep.check(ok and ok2, "R18.5", astq.loc(sd), f"{sd.key}::R18.5::guarded-division",
-              "stable_division is no longer `a / where(|b| > eps, b, eps * sign(b))`", "a / guarded b")
+                want_abs = abs(a) / eps
+                if abs(r) != want_abs or (a != 0 and b != 0 and (r > 0) != ((a > 0) == (b > 0))):
+                    bad.append(f"a={a}, b={b}: returns {r}; expected modulus {want_abs} with the sign of a / b")
+    rep.check(not bad, "R18.5", astq.loc(sd), f"{sd.key}::R18.5::guarded-division",
+              f"stable_division: {'; '.join(bad[:4])}: with diagonal noise a channel whose diffusion is (nearly or exactly) zero "
+              f"makes the log-ratio inf / nan or gives it the wrong sign", "guarded quotient", facts={"cases": n, "eps": str(eps)})
     ctx.floor("R18.5", 1)
 
 
